@@ -8,6 +8,7 @@ import (
 	"errors"
 
 	"github.com/gofrs/uuid"
+	"github.com/ory/herodot"
 	"github.com/ory/x/popx"
 
 	"github.com/gobuffalo/pop/v6"
@@ -37,6 +38,7 @@ type (
 )
 
 var (
-	ErrMalformedPageToken       = errors.New("malformed page token")
+	// ErrMalformedPageToken is a client error: the token comes from the request.
+	ErrMalformedPageToken       = herodot.ErrBadRequest.WithError("malformed page token")
 	ErrNetworkMigrationsMissing = errors.New("networkx migrations are not yet applied")
 )
